@@ -32,20 +32,42 @@ def transform(req: bytes) -> bytes | None:
 MARK = bytes.fromhex("eeeeeeee")
 
 
+class _EchoReply:
+    def __init__(self, pdu: bytes) -> None:
+        self.pdu = pdu
+
+    def __repr__(self) -> str:
+        return f"echo({len(self.pdu)} bytes)"
+
+
+class _EchoState:
+    def reset(self) -> None:
+        pass
+
+
+class _EchoECU:
+    """The ECU behind gallia's server transport: answers every request with its transform, some with silence."""
+
+    def __init__(self, seen: list[bytes], think: float) -> None:
+        self.seen = seen
+        self.think = think
+        self.state = _EchoState()
+
+    async def respond(self, request: Any) -> Any:
+        pdu = bytes(request.pdu)
+        self.seen.append(pdu)
+        if self.think:
+            await asyncio.sleep(self.think)  # a server that needs time per request (e.g. the database-backed one)
+        out = transform(pdu)
+        return _EchoReply(out) if out is not None else None
+
+
 def make_server_class(base: type) -> type:
     class EchoTransport(base):  # type: ignore[misc, valid-type]
-        """gallia's real connection loop; only the UDS layer behind it is replaced."""
+        """gallia's real connection loop AND its real handle_request(); only the ECU object behind them is a stub."""
 
         def __init__(self, target: TargetURI, seen: list[bytes], think: float = 0.0) -> None:
-            self.target = target
-            self.seen = seen
-            self.think = think
-
-        async def handle_request(self, request_pdu: bytes) -> tuple[bytes | None, float]:
-            self.seen.append(bytes(request_pdu))
-            if self.think:
-                await asyncio.sleep(self.think)  # a server that needs time per request (e.g. the database-backed one)
-            return transform(request_pdu), 0.0
+            super().__init__(_EchoECU(seen, think), target)  # type: ignore[arg-type]
 
     return EchoTransport
 
@@ -86,7 +108,7 @@ class C19(Check):
     ]
     components = {
         "LinesTransportMixin.read/write, TCPLinesTransport, UnixLinesTransport": "real",
-        "TCPUDSServerTransport.handle_client / UnixUDSServerTransport": "real",
+        "TCPUDSServerTransport.handle_client / UnixUDSServerTransport, UDSServerTransport.handle_request": "real (the ECU object behind them is an echo stub)",
         "asyncio StreamReader/StreamWriter": "real on SimNet transport",
         "peer (raw client / raw server)": "stub",
     }
@@ -357,9 +379,16 @@ class C19(Check):
             await asyncio.sleep(0.05)
             return None
 
+        import gallia.services.uds.server as server_mod
+        from simkit.clock import EPOCH
+        from simkit.world import Seams
+
+        seams = Seams()
+        seams.set(server_mod, "time", lambda: EPOCH + (holder["net"].loop.time() if "net" in holder else 0.0))
         try:
             out = sim_run(main, vcap=900.0, stepcap=3_000_000)
         finally:
+            seams.restore()
             if "net" in holder:
                 holder["net"].uninstall()
         rec: Recorder = holder["rec"]
